@@ -89,10 +89,11 @@ def run_check(ctx, args):
             rc, out = core.lake_build(["nutree_driver"])
             if rc != 0:
                 raise core.MachineryError("driver build failed:\n" + out[-3000:])
-            rc, out = core.lake_build([f"Nutree.Properties.{prop}"])
+            mods_p = core.prop_modules(prop, obligations_all)
+            rc, out = core.lake_build(mods_p)
             if rc != 0:
                 tail = "\n".join(l for l in out.split("\n") if "error" in l.lower())[:1500]
-                proof_problems.append(f"lake build Nutree.Properties.{prop} failed: {tail}")
+                proof_problems.append(f"lake build {' '.join(mods_p)} failed: {tail}")
 
     # 2. audit
     obs = obligations_all[prop]
@@ -113,7 +114,11 @@ def run_check(ctx, args):
             problems = [p for p in problems if "statement changed" not in p]
             discharged = [o["name"] for o in obs if "_sha_now" in o]
         proof_problems += problems
-    mods = core.transitive_local_imports(f"Nutree.Properties.{prop}")
+    mods = []
+    for m0 in core.prop_modules(prop, obligations_all):
+        for m1 in core.transitive_local_imports(m0):
+            if m1 not in mods:
+                mods.append(m1)
     hits = core.grep_forbidden(core.module_files(mods))
     if hits:
         proof_problems += [f"forbidden token: {h}" for h in hits]
@@ -157,8 +162,8 @@ def run_check(ctx, args):
     coverage = dict(
         obligations=n_obl,
         discharged=len(discharged),
-        checker_cmd=f"cd lean && lake build Nutree.Properties.{prop} && lake env lean <generated audit: #print axioms / #check of {n_obl} registered theorems>"
-        + ("; lake env leanchecker Nutree.Properties.%s" % prop if ctx.tier == "thorough" else ""),
+        checker_cmd=f"cd lean && lake build {' '.join(core.prop_modules(prop, obligations_all))} && lake env lean <generated audit: #print axioms / #check of {n_obl} registered theorems>"
+        + ("; lake env leanchecker " + " ".join(core.prop_modules(prop, obligations_all)) if ctx.tier == "thorough" else ""),
         trusted_base=core_trusted(mod),
         theorems=[dict(name=o["name"], strength=o.get("strength", "full"), meaning=o.get("meaning", ""), axioms=o.get("_axioms")) for o in obs],
         proof_problems=proof_problems,
@@ -175,7 +180,7 @@ def run_check(ctx, args):
     )
     coverage.update(out.extra)
     if ctx.tier == "thorough" and not proof_problems:
-        rc, lc = core.run(["lake", "env", "leanchecker", f"Nutree.Properties.{prop}"], cwd=core.LEAN, timeout=3000)
+        rc, lc = core.run(["lake", "env", "leanchecker"] + core.prop_modules(prop, obligations_all), cwd=core.LEAN, timeout=3000)
         coverage["leanchecker_rc"] = rc
         if rc != 0:
             proof_problems.append("leanchecker rejected the compiled module: " + lc[-300:])
